@@ -30,7 +30,7 @@ I0 == [present |-> FALSE, cfg |-> NoCfg,
        vc |-> {}, st |-> NoStop, halted |-> FALSE,
        burst |-> 0, burstT |-> -1,
        preSince |-> -1,
-       inflight |-> {}, lastEv |-> "", note |-> "", why |-> "", readyAt |-> -1, owes |-> FALSE, cut |-> FALSE, hung |-> {}, verifyAt |-> -1, nbo |-> 0, nrs |-> 0]
+       inflight |-> {}, lastEv |-> "", note |-> "", why |-> "", readyAt |-> -1, owes |-> FALSE, cut |-> FALSE, hung |-> {}, verifyAt |-> -1, nbo |-> 0, nrs |-> 0, servedSince |-> 0]
 
 O0 == [scn |-> "", ended |-> TRUE, H |-> 1000000, TTL |-> 3000000, L |-> 0, PT |-> 5000000,
        rec |-> [k \in Keys |-> NoRec], tokens |-> {}, pend |-> {},
@@ -263,7 +263,7 @@ H_op_resp(o, e) ==
       o2 == IF lostResp THEN Rearm([o1 EXCEPT !.faulty = TRUE, !.I[e.i].cut = TRUE], e.t) ELSE o1
       \* an operation that took much longer than the configured latency: the store was not responsive for this
       \* instance until now; the vacancy bound counts from here (C06 "plus operation latencies")
-      o3 == IF e.lat > 2 * o.L + 1000 THEN Rearm(o2, e.t) ELSE o2
+      o3 == IF e.lat > 2 * o.L + 1000 THEN Rearm([o2 EXCEPT !.I[e.i].servedSince = e.t], e.t) ELSE o2
   IN R(o3, {})
 
 H_w_deliver(o, e) == R(o, {})
@@ -421,7 +421,8 @@ H_snap(o, e) ==
       v09 == IF y.stopped /\ e.leader THEN {V("C09", "reports_leadership_after_stop_returned", i, e)} ELSE {}
       follower == ~y.claim /\ Cand(o1, i) /\ ~o1.faulty /\ e.state = "FOLLOWER"
       bound == 1000000 + 6 * o1.L + o1.W
-      settled == r.live /\ r.cls = "payload" /\ e.t - o1.recSince[k] > bound /\ e.t - y.readyAt > bound
+      settled == r.live /\ r.cls = "payload" /\ e.t - o1.recSince[k] > bound /\ e.t - y.readyAt > bound /\ e.t - y.servedSince > bound
+                 /\ (\A op \in o1.pend : op.i = i => e.t - op.at <= 2 * o1.L + 1000)
       v18d == IF follower /\ settled /\ e.slid # r.id THEN {V("C18", "follower_leader_id_not_converged", i, e)} ELSE {}
       v02 == IF Calm(o1) /\ y.claim /\ ~ClaimBacked(i, r, y.ttok) THEN {V("C02", "claim_not_backed_by_record" \o Ctx(o), i, e)} ELSE {}
       v02b == IF Calm(o1) /\ ~AtMostOneLeader(Claims(o1, k)) THEN {V("C02", "two_leaders" \o Ctx(o), i, e)} ELSE {}
